@@ -24,7 +24,7 @@
 #include <stdlib.h>
 #include <string.h>
 
-enum { F_NULL_KEY_STORED, F_NULL_KEY_EVICTED, F_NULL_KEY_REMOVED, F_OVERFLOW_EVICTION, F_OVERWRITE, F_CLEAR_NONEMPTY, F_LRU_USE, F_FIND_MISS, F_KIND_LHT, F_KIND_FIFO, F_KIND_LIFO, F_KIND_LRU, F_BIG_CAPACITY };
+enum { F_NULL_KEY_STORED, F_NULL_KEY_EVICTED, F_NULL_KEY_REMOVED, F_OVERFLOW_EVICTION, F_OVERWRITE, F_CLEAR_NONEMPTY, F_LRU_USE, F_FIND_MISS, F_KIND_LHT, F_KIND_FIFO, F_KIND_LIFO, F_KIND_LRU, F_BIG_CAPACITY, F_NULL_VALUE_STORED };
 
 enum { KIND_LHT, KIND_FIFO, KIND_LIFO, KIND_LRU };
 static const char *const KIND_NAME[] = {"linked_hash_table", "fifo_cache", "lifo_cache", "lru_cache"};
@@ -39,6 +39,7 @@ struct val {
 };
 static struct val s_vals[MAX_VALS];
 static int s_nvals;
+static int s_want[MAX_VALS]; /* expected destruction counts, parallel to s_vals */
 
 struct ent {
     uintptr_t key;
@@ -74,8 +75,19 @@ static void hist(const char *fmt, ...) {
 
 #define VIOL(key, fmt, ...) mon_violation((key), "%s max=%zu, after %s: " fmt " | history tail: %s", KIND_NAME[s_kind], s_max, s_op, __VA_ARGS__, s_hist)
 
+/* half of the cases also store NULL as a value (a handle or index 0 kept in the pointer, or the table used as an
+ * ordered set): the destructor is still owed once per displaced entry, the calls with NULL are counted */
+static bool s_null_values;
+static int s_null_destroyed, s_null_want;
+#define VID(v) ((v) ? (v)->id : -1)
+#define WANT(v) ((v) ? (void)s_want[(v)->id]++ : (void)++s_null_want)
+
 static void on_value_destroy(void *p) {
     struct val *v = p;
+    if (!v && s_null_values) {
+        ++s_null_destroyed;
+        return;
+    }
     if (!v || v < s_vals || v >= s_vals + MAX_VALS || v->magic != 0x7A11C0DEu) {
         mon_violation("C18:int:destructor-argument", "value destructor called with %p, which is not a value of this case", p);
         return;
@@ -111,8 +123,6 @@ static void m_move_back(int i) {
     s_m[s_n++] = e;
 }
 
-/* expected destruction counts are kept in the val itself: want[] parallel array */
-static int s_want[MAX_VALS];
 
 static void compare(const struct aws_linked_hash_table *t, size_t count) {
     if (count != (size_t)s_n) {
@@ -132,7 +142,7 @@ static void compare(const struct aws_linked_hash_table *t, size_t count) {
         struct aws_linked_hash_table_node *ln = AWS_CONTAINER_OF(n, struct aws_linked_hash_table_node, node);
         if ((uintptr_t)ln->key != s_m[i].key || ln->value != s_m[i].v) {
             VIOL("C18:int:order", "position %d holds key %zu value #%d, reference key %zu value #%d", i, (size_t)(uintptr_t)ln->key,
-                 ln->value ? ((struct val *)ln->value)->id : -1, (size_t)s_m[i].key, s_m[i].v->id);
+                 ln->value ? ((struct val *)ln->value)->id : -1, (size_t)s_m[i].key, VID(s_m[i].v));
             return;
         }
     }
@@ -145,6 +155,9 @@ static void compare(const struct aws_linked_hash_table *t, size_t count) {
             VIOL("C18:int:value-destructor", "value #%d destroyed %d times, expected %d", v, s_vals[v].destroyed, s_want[v]);
             return;
         }
+    }
+    if (s_null_destroyed != s_null_want) {
+        VIOL("C18:int:value-destructor", "value destructor ran %d times for entries holding a NULL value, expected %d", s_null_destroyed, s_null_want);
     }
 }
 
@@ -239,6 +252,8 @@ static void run_case(void) {
     s_hl = 0;
     s_hist[0] = 0;
     memset(s_want, 0, sizeof(s_want));
+    s_null_values = mon_chance(r, 1, 2);
+    s_null_destroyed = s_null_want = 0;
     mon_fp((uint64_t)s_kind * 1000 + s_max * 16 + (uint64_t)nkeys);
     mon_flag(F_KIND_LHT + s_kind);
     struct aws_linked_hash_table lht;
@@ -273,15 +288,18 @@ static void run_case(void) {
         int at = m_find(k);
         if (pick < 50) {
             s_op = "put";
-            struct val *v = new_val();
-            hist(" put(%zu,#%d)", (size_t)k, v->id);
+            struct val *v = s_null_values && mon_chance(r, 1, 4) ? NULL : new_val();
+            hist(" put(%zu,#%d)", (size_t)k, VID(v));
+            if (!v) {
+                mon_flag(F_NULL_VALUE_STORED);
+            }
             int rc = s_kind == KIND_LHT ? aws_linked_hash_table_put(t, (void *)k, v) : aws_cache_put(cache, (void *)k, v);
             if (rc != AWS_OP_SUCCESS) {
                 VIOL("C18:int:put-failed", "put(%zu) failed with error %d", (size_t)k, aws_last_error());
                 break;
             }
             if (at >= 0) {
-                s_want[s_m[at].v->id]++;
+                WANT(s_m[at].v);
                 m_remove_at(at);
                 mon_flag(F_OVERWRITE);
             }
@@ -297,7 +315,7 @@ static void run_case(void) {
                 if (s_m[victim].key == 0) {
                     mon_flag(F_NULL_KEY_EVICTED);
                 }
-                s_want[s_m[victim].v->id]++;
+                WANT(s_m[victim].v);
                 m_remove_at(victim);
                 mon_flag(F_OVERFLOW_EVICTION);
             }
@@ -317,7 +335,7 @@ static void run_case(void) {
             }
             if (at >= 0) {
                 if (out != s_m[at].v) {
-                    VIOL("C18:int:find", "find(%zu) returned %p, the stored value is #%d", (size_t)k, out, s_m[at].v->id);
+                    VIOL("C18:int:find", "find(%zu) returned %p, the stored value is #%d", (size_t)k, out, VID(s_m[at].v));
                 }
                 if (move) {
                     m_move_back(at);
@@ -340,7 +358,7 @@ static void run_case(void) {
                 if (k == 0) {
                     mon_flag(F_NULL_KEY_REMOVED);
                 }
-                s_want[s_m[at].v->id]++;
+                WANT(s_m[at].v);
                 m_remove_at(at);
             }
         } else if (pick < 92) {
@@ -355,7 +373,7 @@ static void run_case(void) {
                 aws_cache_clear(cache);
             }
             for (int i = 0; i < s_n; ++i) {
-                s_want[s_m[i].v->id]++;
+                WANT(s_m[i].v);
             }
             s_n = 0;
         } else if (s_kind == KIND_LRU) {
@@ -369,7 +387,7 @@ static void run_case(void) {
                     }
                 } else {
                     if (got != s_m[0].v) {
-                        VIOL("C18:int:use-lru", "use_lru_element returned %p, the least recently used value is #%d", got, s_m[0].v->id);
+                        VIOL("C18:int:use-lru", "use_lru_element returned %p, the least recently used value is #%d", got, VID(s_m[0].v));
                     }
                     m_move_back(0);
                     mon_flag(F_LRU_USE);
@@ -379,7 +397,7 @@ static void run_case(void) {
                 hist(" get_mru");
                 void *got = aws_lru_cache_get_mru_element(cache);
                 if ((s_n == 0 && got) || (s_n && got != s_m[s_n - 1].v)) {
-                    VIOL("C18:int:get-mru", "get_mru_element returned %p, reference #%d", got, s_n ? s_m[s_n - 1].v->id : -1);
+                    VIOL("C18:int:get-mru", "get_mru_element returned %p, reference #%d", got, s_n ? VID(s_m[s_n - 1].v) : -1);
                 }
             }
         } else {
@@ -389,7 +407,7 @@ static void run_case(void) {
     }
     s_op = "clean_up";
     for (int i = 0; i < s_n; ++i) {
-        s_want[s_m[i].v->id]++;
+        WANT(s_m[i].v);
     }
     s_n = 0;
     if (s_kind == KIND_LHT) {
@@ -404,6 +422,10 @@ static void run_case(void) {
                 break;
             }
         }
+        if (s_null_destroyed != s_null_want) {
+            VIOL("C18:int:value-destructor", "value destructor ran %d times for entries holding a NULL value after clean-up, expected %d", s_null_destroyed,
+                 s_null_want);
+        }
         mon_guard_stats(&st1);
         if (st1.live_blocks != st0.live_blocks) {
             VIOL("C18:int:leak", "allocator imbalance after clean-up: %lld blocks", (long long)(st1.live_blocks - st0.live_blocks));
@@ -416,7 +438,8 @@ int main(int argc, char **argv) {
     mon_init(argc, argv, "C18");
     aws_common_library_init(aws_default_allocator());
     static const char *names[] = {"null_key_stored", "null_key_evicted_on_overflow", "null_key_removed", "overflow_eviction", "overwrite_existing_key", "clear_nonempty",
-                                  "lru_use_lru_element", "find_absent_key", "int_keys_linked_hash_table", "int_keys_fifo", "int_keys_lifo", "int_keys_lru", "cache_capacity_above_32768_filled_to_overflow"};
+                                  "lru_use_lru_element", "find_absent_key", "int_keys_linked_hash_table", "int_keys_fifo", "int_keys_lifo", "int_keys_lru", "cache_capacity_above_32768_filled_to_overflow",
+                                  "null_value_stored"};
     for (int i = 0; i < (int)(sizeof(names) / sizeof(names[0])); ++i) {
         mon_flag_name(i, names[i]);
     }
